@@ -391,6 +391,43 @@ CLAUSES = [
     ),
 ]
 
+def st_surrogate_names():
+    sur = st.one_of(st.integers(0xDC80, 0xDCFF), st.integers(0xD800, 0xDFFF)).map(chr)  # the escapes os.fsdecode() produces first
+    part = st.text(alphabet=st.characters(min_codepoint=0x20, max_codepoint=0x7E), max_size=6)
+    name = st.tuples(part, sur, part).map("".join)
+    return st.fixed_dictionaries({"kind": st.sampled_from(["fsreq", "fsresp"]), "action": st.sampled_from(M.ACTIONS), "n1": name, "n2": st.one_of(st.just(""), name), "which": st.integers(0, 1)})
+
+
+def check_surrogate_names(c):
+    """A name that has no UTF-8 encoding (lone surrogate, e.g. what os.fsdecode() yields for undecodable octets) is refused when the
+    TLV is packed - or, if an implementation chooses to encode it, it decodes back to the same name.  Never a TLV that cannot be read back."""
+    T, CfdpLv, _ = _T()
+    devs = []
+    n1, n2 = (c["n1"], "plain.txt") if c["which"] == 0 else ("plain.txt", c["n1"])
+    if c["action"] not in (2, 3, 4):
+        n1, n2 = c["n1"], ""
+    mk = (lambda: T.FileStoreRequestTlv(T.FilestoreActionCode(c["action"]), n1, n2)) if c["kind"] == "fsreq" else \
+        (lambda: T.FileStoreResponseTlv(T.FilestoreActionCode(c["action"]), T.FilestoreResponseStatusCode(c["action"] << 4), n1, n2, CfdpLv(b"")))
+    try:
+        raw = bytes(mk().pack())
+    except ValueError:  # UnicodeEncodeError is a ValueError
+        return devs
+    cls = T.FileStoreRequestTlv if c["kind"] == "fsreq" else T.FileStoreResponseTlv
+    try:
+        y = cls.unpack(raw)
+        eq(devs, "unencodable_name.packed_but_decodes_differently", (y.first_file_name, y.second_file_name), (n1, n2))
+    except Exception as e:  # noqa: BLE001 - the library packed something it cannot read back
+        devs.append(Dev("unencodable_name.packed_but_not_decodable", f"pack() produced {raw.hex()} for names {n1!r}, {n2!r}; decoding it raises {type(e).__name__}"))
+    return devs
+
+
+CLAUSES.append(Clause(
+    id="C08.unencodable_names",
+    doc="filestore request / response names containing a lone surrogate (no UTF-8 encoding exists): packing is refused, or what is packed decodes back to the same names",
+    strategy=st_surrogate_names, check=check_surrogate_names, classify=lambda c: [c["kind"], "low surrogate dc80..dcff" if any(0xDC80 <= ord(ch) <= 0xDCFF for ch in c["n1"]) else "other surrogate"],
+    required=["fsreq", "fsresp", "low surrogate dc80..dcff", "other surrogate"], n={"quick": 200, "thorough": 2000},
+))
+
 CLAUSES.append(Clause(
     id="C08.locale",
     doc="file names are encoded as UTF-8 whatever the process locale is: filestore TLVs and LVs packed in a child interpreter under LC_ALL=C with UTF-8 mode off equal the reference octets",
